@@ -59,7 +59,8 @@ PROPS["C01"] = {
     "search": detect_search("C01"),
     "rule": "detection cases = fixed witnesses + corpus files + generated (corpus slices, texts re-encoded into any supported "
             "encoding, marks, declarations, ASCII with high bytes at random offsets incl. between the sampled chunks, tiny, binary, "
-            "corrupted UTF-8, mixed scripts, inputs on both sides of 1,000,000 bytes) x random settings; each compared field by "
+            "corrupted UTF-8, mixed scripts, inputs on both sides of 1,000,000 bytes incl. an ASCII head followed by legacy text, and legacy single-byte "
+            "text of 500,001..1,000,000 bytes -- above the prefix limit, below the lazy limit) x random settings; each compared field by "
             "field with the extracted Coq model run on the same case with its oracles served by the real primitives, and checked "
             "against the codec crate's own strict decode; non-trivial = distinct cases with at least one match",
     "assumptions": ["LazyContract (single-byte decoders are byte-wise) for inputs above TOO_BIG_SEQUENCE only; discharged for decode oracles that are the "
@@ -312,11 +313,13 @@ PROPS["C11"] = {
     "theorems": ["C11_call_transparent", "C11_history_transparent", "C11_keys_cover_all_arguments", "C11_declarations_pinned"],
     "runs": [{"level": "memo", "args_quick": ["--histories", "40"], "args_thorough": ["--histories", "2000"]}, CD_RUN],
     "search": {"level": "memo", "args": ["--histories", "400"]},
-    "rule": "a pool of 60 (input, settings) pairs built from 10 texts in various encodings: each text with default settings, another chaos "
+    "rule": "a pool of ~120 (input, settings) pairs built from 20 texts (corpus texts in various encodings, 'messy prefix of 24..127 characters + one long word' inputs whose "
+            "early exit falls inside a word, prose with symbols / digits / accents inserted into words): each text with default settings, another chaos "
             "threshold, another language threshold, other window parameters, an exclude filter, and a prefix of itself (so that decoded "
-            "chunks are shared while one setting differs); cold-cache reference per pair; 40 random histories of 20-60 calls from the pool "
+            "chunks are shared while one setting differs); cold-cache reference per pair, computed in a FRESH thread (pristine thread-local state); 40 random histories of 20-60 calls from the pool "
             "on initially flushed caches, one in three with > 2300 distinct filler chunks pushed through the 2048-entry caches in the middle "
-            "(eviction); every call must equal its cold reference; plus the memoised mess_ratio / coherence_ratio against their uncached "
+            "(eviction); every call must equal its cold reference; a 400-call sequence of the UNCACHED mess_ratio / coherence_ratio bodies, each call against the "
+            "same call in a fresh thread (hidden state of any kind); plus the memoised mess_ratio / coherence_ratio against their uncached "
             "bodies on 300 texts under alternating thresholds",
     "assumptions": ["the memoised functions are deterministic (C03)", "the expansion shape of cached_proc_macro 0.25.0 is read from its source, pinned by version"],
     "trusted": [],
@@ -344,7 +347,9 @@ CLI_RULE = ("the built `normalizer` binary (feature cli, rebuilt from the curren
             "10 flag families incl. the three contradictory ones and thresholds inside / outside [0,1]; directory snapshot before / after, "
             "exit status and stdout compared with Model/Cli.v run on the same flags and files (its library oracle answered by the in-process "
             "library): files written with content, status, report kind, every field of every record; and the property statements checked "
-            "directly; non-trivial = well-formed invocations on readable inputs")
+            "directly, the content of a normalised file against the CODEC CRATE's strict decode of the original bytes (not the library's own text); "
+            "three fixed size cases without riders: one legacy file of 500,001..900,000 bytes (normalise), one ASCII head of 500,000+ bytes followed by "
+            "windows-1251 text, > 1 MB (report), one legacy file > 1 MB (normalise); non-trivial = well-formed invocations on readable inputs")
 
 PROPS["C14"] = {
     "module": "PropC14",
@@ -354,7 +359,9 @@ PROPS["C14"] = {
     "search": {"level": "path", "args": ["--n", "600"]},
     "rule": "real files of sizes 0, 1, steps*chunk_size-1 / +0 / +1, corpus files, > 1 MB, under default and random settings: from_path vs "
             "from_bytes(read) signatures; failure kinds: missing, directory, path through a regular file, dangling symlink, symlink to a "
-            "file, mode-000 file read by a child process that dropped to uid 65534 (setpriv); every call under catch_unwind",
+            "file, mode-000 file read by a child process that dropped to uid 65534 (setpriv); the same failure kinds spelled without a final "
+            "component or with dot / slash riders ('..', '.', '/', '', 'dir/..', 'dir/.', 'missing/..', trailing slash on a directory / a missing "
+            "path / a regular file, a non-UTF-8 name); every call under catch_unwind",
     "assumptions": ["partial: std::fs / the operating system are not modelled; the theorem is near-definitional"],
     "trusted": [],
 }
